@@ -2399,7 +2399,7 @@ static int _GD_ParseDirective(DIRFILE *D, struct parser_state *restrict p,
 
 /* Resolve and record an alias, taking care of loops */
 static gd_entry_t *_GD_ResolveAlias(DIRFILE *restrict D, const gd_entry_t *base,
-    gd_entry_t *E)
+    gd_entry_t *E, unsigned int depth)
 {
   gd_entry_t *T = NULL;
 
@@ -2416,10 +2416,10 @@ static gd_entry_t *_GD_ResolveAlias(DIRFILE *restrict D, const gd_entry_t *base,
     if (T->field_type == GD_ALIAS_ENTRY) {
       if (T->e->entry[0])
         T = T->e->entry[0];
-      else if (base == T) /* loop */
+      else if (base == T || depth >= D->n_entries) /* loop */
         T = NULL;
       else
-        T = _GD_ResolveAlias(D, base, T);
+        T = _GD_ResolveAlias(D, base, T, depth + 1);
     }
 
   }
@@ -2452,7 +2452,7 @@ void _GD_UpdateAliases(DIRFILE *D, int reset)
     if (D->entry[u]->field_type == GD_ALIAS_ENTRY &&
         D->entry[u]->e->entry[1] == NULL)
     {
-      _GD_ResolveAlias(D, D->entry[u], D->entry[u]);
+      _GD_ResolveAlias(D, D->entry[u], D->entry[u], 0);
     }
 
   dreturnvoid();
